@@ -49,6 +49,7 @@ type CaseB struct {
 	// Mix: the small tasks before / after are spread over the agents of the chain (the
 	// i-th goes to agent i mod chain length) instead of all going to the target
 	Mix bool `json:"mix,omitempty"`
+	Cfg Cfg  `json:"cfg,omitempty"` // configuration / environment of the fixture (cfg_test.go)
 }
 
 func (c CaseB) depth() int {
@@ -123,6 +124,7 @@ func genB(t *rapid.T) CaseB {
 	if c.Use == "bof" {
 		c.Files = append(c.Files, genFileB(t, false, bw))
 	}
+	c.Cfg = genCfg(t, depth+1)
 	return c
 }
 
@@ -141,7 +143,7 @@ func checkB(c CaseB) *core.Violation {
 			parents = append(parents, i-1)
 		}
 	}
-	w, err := newForest(ids, parents)
+	w, err := newForestCfg(ids, parents, c.Cfg)
 	if err != nil {
 		return core.V("harness|fixture", "%v", err)
 	}
@@ -282,8 +284,9 @@ func classifyB(c CaseB) core.Class {
 	if maxSize >= Limit-200 && maxSize < Limit && d >= 2 {
 		cl.Labels = append(cl.Labels, "conj:target-depth>=2 x file-just-below-1-chunk")
 	}
+	cl.Labels = append(cl.Labels, c.Cfg.labels()...)
 	cl.NonTrivial = true // every case has a chunk task and the command queued together
-	cl.Fingerprint = fmt.Sprintf("%s|b=%d|a=%d|d=%d", fp, c.Before, c.After, d)
+	cl.Fingerprint = fmt.Sprintf("%s|b=%d|a=%d|d=%d", fp, c.Before, c.After, d) + c.Cfg.fp()
 	return cl
 }
 
@@ -291,7 +294,7 @@ func TestC04b(t *testing.T) {
 	big()
 	core.Run(t, core.Spec[CaseB]{
 		Property: "C04", Sub: "b",
-		Rule: "one file push per case through TaskPrepare: fs upload (1 file), inline-execute (BOF object + argument buffer = 2 files), dotnet inline-execute (1 file); file sizes {0, 1, c-1, c, c+1, 2c-1, 2c, 2c+1 (c = 0x1e00000), 2-5000, 5001-2 MiB}; 0-2 small tasks queued before and 0-1 after; the queue is drained through check-ins. Oracle: the (a) oracle plus: the tasks before the command are COMMAND_MEM_FILE records [id][total][bytes] with one id per file and total = file size, at least one per file, concatenating to exactly the file, and the command carries those ids. Every case is non-trivial (>=2 tasks queued together); distinct = (use, size classes, before, after, target depth). TARGET POSITION (independent of use and size class): the agent the file is pushed to is directly connected (35%) or the last agent of an SMB pivot chain of depth 1 / 2 / 3 (20 / 23 / 22%) linked through the real, relayed SMB_CONNECT callback, ids of all hops drawn from {<2^31, >=2^31, 2^31-1, 2^31, 2^32-1, leading zero digits}; all size classes occur at every position, plus two more: c-n and c+n with n in 2..200 (a file within the headers / wrappings of one chunk); for a target behind >= 2 hops the share of files around multiples of the chunk size is 16:80 instead of 7:80, so that 'target depth >= 2 x file >= one chunk' (label conj:...) is met about 15 times in a quick run; in 1 of 3 pivot cases the small tasks before / after are spread over the agents of the chain instead of all going to the target. The oracle is evaluated where the bytes really end up: the queue of the directly connected agent at the top of the chain is drained, each delivered task is unwrapped hop by hop (COMMAND_PIVOT [SMB_COMMAND][next id][frame = [next id][size][one task under the next hop's key]], SmbRecv's frame rules) down to what the target executes, and then: chunk records carry one file id and total = file size, concatenate in order to exactly the file, and are followed by the command naming those ids, all in queue order with the small tasks",
+		Rule: "one file push per case through TaskPrepare: fs upload (1 file), inline-execute (BOF object + argument buffer = 2 files), dotnet inline-execute (1 file); file sizes {0, 1, c-1, c, c+1, 2c-1, 2c, 2c+1 (c = 0x1e00000), 2-5000, 5001-2 MiB}; 0-2 small tasks queued before and 0-1 after; the queue is drained through check-ins. Oracle: the (a) oracle plus: the tasks before the command are COMMAND_MEM_FILE records [id][total][bytes] with one id per file and total = file size, at least one per file, concatenating to exactly the file, and the command carries those ids. Every case is non-trivial (>=2 tasks queued together); distinct = (use, size classes, before, after, target depth). TARGET POSITION (independent of use and size class): the agent the file is pushed to is directly connected (35%) or the last agent of an SMB pivot chain of depth 1 / 2 / 3 (20 / 23 / 22%) linked through the real, relayed SMB_CONNECT callback, ids of all hops drawn from {<2^31, >=2^31, 2^31-1, 2^31, 2^32-1, leading zero digits}; all size classes occur at every position, plus two more: c-n and c+n with n in 2..200 (a file within the headers / wrappings of one chunk); for a target behind >= 2 hops the share of files around multiples of the chunk size is 16:80 instead of 7:80, so that 'target depth >= 2 x file >= one chunk' (label conj:...) is met about 15 times in a quick run; in 1 of 3 pivot cases the small tasks before / after are spread over the agents of the chain instead of all going to the target. The oracle is evaluated where the bytes really end up: the queue of the directly connected agent at the top of the chain is drained, each delivered task is unwrapped hop by hop (COMMAND_PIVOT [SMB_COMMAND][next id][frame = [next id][size][one task under the next hop's key]], SmbRecv's frame rules) down to what the target executes, and then: chunk records carry one file id and total = file size, concatenate in order to exactly the file, and are followed by the command naming those ids, all in queue order with the small tasks" + cfgRule,
 		Gen:  genB, Check: checkB, Classify: classifyB,
 		Assumptions: []string{"empty chunks are allowed (the concatenation is unchanged); at least one chunk per file is required because the command refers to the file through the id the chunks carry"},
 	})
